@@ -24,7 +24,12 @@ def section(words):
 files = sorted(set(re.findall(r"^\+\+\+ b/(\S+)", open(os.path.join(src, "patch.diff")).read(), re.M)))
 kv = dict(x.split("=", 1) for x in confirm.split()[1:] if "=" in x)
 detected = []
-for e in evals:
+last = {}
+for e in evals:  # a change may have been evaluated again after a check was strengthened: the last run per check counts
+    mm = re.match(r"(\S+) (C\d+) (\w+) ", e)
+    if mm:
+        last[(mm.group(2), mm.group(3))] = e
+for e in last.values():
     m = re.match(r"(\S+) (C\d+) (\w+) rc=(\d+)\s+(.*)", e)
     if m:
         detected.append({"check": m.group(2), "tier": m.group(3), "exit_code": int(m.group(4)), "first_report": m.group(5).strip()})
